@@ -1,4 +1,4 @@
-import GardenVerif.Lemmas.Extract
+import GardenVerif.Lemmas.ExtractFunSim
 /-!
 # C20 — Extract variable and extract function preserve behaviour
 
@@ -14,30 +14,31 @@ Relations, decided by the driver on the two trees of the REAL parser (`hoist_che
   without it is `p` with the node replaced by the call `n(params…)`, the arguments being the new
   function's parameter names in the same order; `n` is fresh.
 
-Proved here:
+Proved here (all programs, all fuel; closure-free restriction `cl = false` of `RefSem`, hence `_partial`):
 * `hoistCheck_sound`, `funextCheck_sound` — the decision procedures imply the relations;
-* `pure_keeps_state_partial` — the `Pure` ingredient: an expression built from literals, variables,
-  operators, parentheses and list / tuple literals never changes the store or the output, in any
-  state, with or without closures, for any fuel (it may still raise an error);
-* `hoisted_use_partial` — the local step of `let_hoist_sound`: right after `let n = e` has run in a
-  state where `e` has the value `v`, the use `n` evaluates to `v` like `e` did, without touching the state.
+* `let_hoist_sound_partial`, `let_hoist_behaviour_partial`, `hoistCheck_behaviour_partial` —
+  `IsLetHoist` + the decidable side conditions `hoistSafe` (assignment-free, `n` unused, `e` pure and
+  call-free, everything evaluated before `e` in its statement pure and call-free, not a `while`
+  condition): a run of `p` that ends without a Garden error is reproduced — same result value, same
+  printed output — by `p'` with fuel `2 * k`. No "e is total" hypothesis: if `e` raises an error
+  where the statement starts, the original run is an error run too (`spBad`).
+* `fun_extract_sound_partial`, `fun_extract_behaviour_partial` — `IsFunExtract` + `funSafe` (see
+  there): same conclusion with fuel `(number of parameters + 5) * k`.
+* `pure_keeps_state_partial`, `hoisted_use_partial` — the local ingredients (any `cl`).
+The simulations (Lemmas/ExtractHoistSim, Lemmas/ExtractFunSim) are up to store EXTENSION: the
+transformed program's store has additional cells (the hoisted variable; the call's parameters), the
+environments are related by "every name other than `n` resolves to the same value" (`Agree`), and
+stores of assignment-free programs only grow (`RelH`).
 
-NOT PROVED (the full statements, kept here):
-  `let_hoist_sound : IsLetHoist p p' t n → Pure e → (e raises no error in the state in which the
-     enclosing statement starts) → assignment-free p → ∀ fuel, behaviour p fuel ≠ timeout →
-     ∃ fuel', behaviour p' fuel' = behaviour p fuel`
-  `fun_extract_sound : IsFunExtract p p' t n → (the parameters contain the free local variables of e)
-     → Pure e → … same conclusion`.
-What is missing is the lift of the local step through the statement's context: the two runs differ by
-one extra store cell / environment entry (the hoisted variable; the call's parameter cells), so it
-needs a simulation up to a store injection instead of the state EQUALITY that `eval_congr_partial`
-(Props/C21) is built on. The hypothesis "`e` raises no error where the statement starts" is exactly
-what excludes the evaluation-ORDER change (the hoisted `e` runs before the sub-expressions to its
-left in the statement); hoisting out of an untaken branch / loop / arm is excluded by the relation
-itself (block-free spine). Per input the direct oracle decides: the output parses, and where the
-original ran without error the result prints the same and ends the same way.
+FULL STATEMENTS NOT PROVED: the same with closures (`cl = true`: closure values carry code, the two
+runs' values differ by the transformation), for programs with assignments (stores would have to be
+related by an injection instead of by extension), and for impure `e` / impure sub-expressions before
+`e` in the statement (then the hypothesis would have to be a dynamic one). Per input the direct
+oracle covers those: the output parses, and where the original ran without error the result prints
+the same and ends the same way.
 -/
 set_option linter.unusedVariables false
+set_option linter.unusedSimpArgs false
 
 namespace C20
 open Extract RefSem Validators
@@ -77,6 +78,108 @@ theorem hoisted_use_partial (cl : Bool) (p : Program) (m : Nat) (env : Env) (s :
   · simp [bindDest, bindNames, hn']
   · simp [eval, lookupVar, lookup]
 
+/-- `let_hoist_sound` (closure-free restriction of `RefSem`, hence `_partial`).
+Hypotheses: `IsLetHoist p p' t n` (the schema, decided by `hoistCheck`) and `hoistSafe t n p`, the side
+conditions decided on the tree before by `hoist_check`:
+* `n ≠ "_"` and `n` is not used as a variable or binder anywhere in `p`;
+* `p` is assignment-free (no `=`, `+=`, `-=`);
+* where the `let` is inserted, the extracted expression `e` is pure and call-free (`arithE`) and `sp t`
+  holds: the node lies on the block-free spine of its statement, every sub-expression of the statement
+  evaluated BEFORE it is pure and call-free, and it is not a `while` condition. (The real tool
+  guarantees the spine / same-block part; purity of `e` and of what precedes it in the statement is
+  what excludes an observable change of evaluation order.)
+Conclusion: for every fuel `k`, if the original run ends without a Garden error (result neither
+`timeout` nor `err` nor `unsupported`), then the extracted program with fuel `2 * k` ends with the
+SAME result value and has printed the SAME output. (Stores are not compared: the extracted program's
+store has the additional cells of the hoisted variable; internally the simulation is up to store
+extension, `RelH`.) The proof also shows: if `e` raises an error where the statement starts, the
+original run is an error run as well (`spBad`), which is why no "e is total" hypothesis is needed. -/
+theorem let_hoist_sound_partial (p p' : Program) (t : Nat) (n : String)
+    (h : IsLetHoist p p' t n) (hs : hoistSafe t n p = true) (k : Nat)
+    (hk : bad (run false p k).1 = false) :
+    (run false p' (2 * k)).1 = (run false p k).1 ∧ (run false p' (2 * k)).2.out = (run false p k).2.out := by
+  have hr := hoistProg_run hs k
+  rcases hr with hr | ⟨e1, e2, _, _⟩
+  · rw [hk] at hr; cases hr
+  · have hq : isTO (run false (hoistProg t n p) (2 * k)).1 = false := by rw [← e1]; exact isTO_bad hk
+    have h1 := strip_run (hoistProg t n p) (2 * k) (Or.inl hq)
+    have h2 := strip_run p' (2 * k) (Or.inr (by rw [h.1, h1]; exact hq))
+    rw [← h2, h.1, h1]
+    exact ⟨e1.symm, e2.symm⟩
+
+/-- Observable behaviour: a finished original run is reproduced by the extracted program. -/
+theorem let_hoist_behaviour_partial (p p' : Program) (t : Nat) (n : String)
+    (h : IsLetHoist p p' t n) (hs : hoistSafe t n p = true) (k : Nat)
+    (hk : (behaviour false p k).1 = .finished) :
+    behaviour false p' (2 * k) = behaviour false p k := by
+  have hb : bad (run false p k).1 = false := by
+    simp only [behaviour] at hk
+    cases hr : (run false p k).1 <;> rw [hr] at hk <;> simp [Res.outcome] at hk <;> rfl
+  have := let_hoist_sound_partial p p' t n h hs k hb
+  simp only [behaviour, this.1, this.2]
+
+/-- What the driver's verdict gives: `hoist_check` schema + side conditions ⇒ same behaviour. -/
+theorem hoistCheck_behaviour_partial (p p' : Program) (t : Nat) (n : String)
+    (h : hoistCheck p p' t n = true) (hs : hoistSafe t n p = true) (k : Nat)
+    (hk : (behaviour false p k).1 = .finished) :
+    behaviour false p' (2 * k) = behaviour false p k :=
+  let_hoist_behaviour_partial p p' t n (hoistCheck_sound p p' t n h) hs k hk
+
+
+/-- `fun_extract_sound` (closure-free restriction of `RefSem`, hence `_partial`).
+Hypotheses: `IsFunExtract p p' t n` (the schema, decided by `funextCheck`) and `funSafe p p' t n`, the
+side conditions decided by `funext_check` on the real trees (`d` = the new function, `e` = node `t`):
+* `n ≠ "_"`, no parameter is `_`, and `n` is neither a function, an enum variant nor a built-in of `p`;
+* `p` is assignment-free and never uses `n` as a variable;
+* `e` is pure and call-free (`arithE`), contains no other node with its id, and equals the new
+  function's body up to ids / flags;
+* every parameter of `d` occurs in `e`; every variable of `e` is a parameter of `d` or a name that `p`
+  never binds (a global: function, enum constant); no binder of `p` and no parameter of `d` is called
+  `n` or like one of these globals.
+Conclusion: if the original run with fuel `k` ends without a Garden error, the extracted program with
+fuel `(d.params.length + 5) * k` ends with the SAME result value and has printed the SAME output. The
+core is `call_step`: the call `n(params…)` evaluates its arguments (the free variables), binds them in
+a fresh frame and evaluates `e` there to the value `e` has in the caller's environment; the store only
+grows by the parameter cells (simulation up to store extension), and a program with one more, fresh,
+toplevel function runs the same wherever that function is not called (`EqP`: the interpreter reads
+the function table only through lookup by name). -/
+theorem fun_extract_sound_partial (p p' : Program) (t : Nat) (n : String)
+    (h : IsFunExtract p p' t n) (hs : funSafe p p' t n = true) (k : Nat)
+    (hk : bad (run false p k).1 = false) :
+    ∃ m, (run false p' m).1 = (run false p k).1 ∧ (run false p' m).2.out = (run false p k).2.out := by
+  obtain ⟨d, b, hd, hb, h3, _, _, _⟩ := h
+  simp only [funSafe, hd, hb, Bool.and_eq_true, bne_iff_ne, ne_eq, Option.isNone_iff_eq_none,
+    List.all_eq_true] at hs
+  obtain ⟨⟨⟨⟨⟨hn, psu⟩, nfree⟩, psf⟩, gfuns⟩, gtop⟩ := hs
+  have psu' : (fxOf t n d b).ps.all (· != "_") = true := by
+    simp only [List.all_eq_true, bne_iff_ne, ne_eq]; exact psu
+  have psf' : (fxOf t n d b).ps.all (fxOf t n d b).f = true := by
+    simp only [List.all_eq_true]; exact psf
+  have hc : FCtx (fxOf t n d b) p (canonQ (fxOf t n d b) p) := fctx_canon hn psu' psf' nfree gfuns
+  have hr := canon_run hc gtop k
+  have ⟨heq, htop⟩ := eqP_canon (x := fxOf t n d b) (p := p) (p' := p') hd hb rfl rfl h3
+  refine ⟨thrX (fxOf t n d b) k, ?_⟩
+  rcases hr with hr | ⟨e1, e2, _, _⟩
+  · rw [hk] at hr; cases hr
+  · have hq : isTO (run false (canonQ (fxOf t n d b) p) (thrX (fxOf t n d b) k)).1 = false := by
+      rw [← e1]; exact isTO_bad hk
+    have h1 := eqP_run false heq htop (thrX (fxOf t n d b) k)
+    have h2 := strip_run p' (thrX (fxOf t n d b) k) (Or.inr (by rw [← h1]; exact hq))
+    rw [← h2, ← h1]
+    exact ⟨e1.symm, e2.symm⟩
+
+/-- Observable behaviour: a finished original run is reproduced by the program with the extracted function. -/
+theorem fun_extract_behaviour_partial (p p' : Program) (t : Nat) (n : String)
+    (h : IsFunExtract p p' t n) (hs : funSafe p p' t n = true) (k : Nat)
+    (hk : (behaviour false p k).1 = .finished) :
+    ∃ m, behaviour false p' m = behaviour false p k := by
+  have hb : bad (run false p k).1 = false := by
+    simp only [behaviour] at hk
+    cases hr : (run false p k).1 <;> rw [hr] at hk <;> simp [Res.outcome] at hk <;> rfl
+  obtain ⟨m, h1, h2⟩ := fun_extract_sound_partial p p' t n h hs k hb
+  exact ⟨m, by simp only [behaviour, h1, h2]⟩
+
+
 /-- Non-trivial instance of the relation: `println(string_repr((1 + 2) * 3))`, extracting `1 + 2`
 (node 7, inside parentheses 6) as `nv`: `let nv = 1 + 2` before the statement, `nv * 3` in it. -/
 example :
@@ -86,9 +189,26 @@ example :
     let p' : Program := ⟨[], [], [.letE 20 false (.sym "nv") (.binop 21 true .add (.int 22 true 1) (.int 23 true 2)),
       .call 24 false (.var 25 true "println")
       [.call 26 true (.var 27 true "string_repr") [.binop 28 true .mul (.var 29 true "nv") (.int 30 true 3)]]]⟩
-    hoistCheck p p' 6 "nv" = true := by
-  simp [hoistCheck, progEq, WP, WSeq, W, fin, stripCfg, WCfg.i, WCfg.u, seqEq, exprEq, funsEq, enumsEq, hitsProg,
-    hitsSeq, hits, hitsOf, hoistProg, HSeq, findSp, findSpL, pick, replSp, replSpL, unparen, freshProg, freshSeq,
+    hoistCheck p p' 6 "nv" = true ∧ hoistSafe 6 "nv" p = true := by
+  simp [hoistSafe, GSeq, G, GList, sp, spL, noSp, noSpL, arithE, arithL, freshDest, hoistCheck, progEq, WP, WSeq, W, fin, stripCfg, WCfg.i, WCfg.u, seqEq, exprEq, funsEq, enumsEq, hitsProg,
+    hitsSeq, hits, hitsOf, hoistProg, HSeq, findSp, findSpL, pick, HR, HRList, H, HList, unparen, freshProg, freshSeq,
     fresh, destEq]
+
+/-- Non-trivial instance for extract function: `let a = 3` / `println(string_repr(a + 2))`, extracting
+`a + 2` (node 7) as `nf`: the new function `nf(a) { a + 2 }` and the call `nf(a)`; schema and side
+conditions hold. -/
+example :
+    let p : Program := ⟨[], [], [.letE 1 false (.sym "a") (.int 2 true 3),
+      .call 3 false (.var 4 true "println") [.call 5 true (.var 6 true "string_repr")
+        [.binop 7 true .add (.var 8 true "a") (.int 9 true 2)]]]⟩
+    let p' : Program := ⟨[⟨"nf", ["a"], [.binop 20 true .add (.var 21 true "a") (.int 22 true 2)]⟩], [],
+      [.letE 23 false (.sym "a") (.int 24 true 3),
+       .call 25 false (.var 26 true "println") [.call 27 true (.var 28 true "string_repr")
+        [.call 29 true (.var 30 true "nf") [.var 31 true "a"]]]]⟩
+    funextCheck p p' 7 "nf" = true ∧ funSafe p p' 7 "nf" = true := by
+  simp [funextCheck, funSafe, fxOf, funCfg, FX.cfg, FX.f, FX.selOK, GFSeq, GF, GFFun, bokDest, callOf, varsE, arithE,
+    progEq, WP, WSeq, W, fin, stripCfg, WCfg.i, WCfg.u, seqEq, exprEq, funsEq, enumsEq, hitsProg, hitsSeq, hits,
+    hitsOf, freshProg, freshSeq, fresh, freshDest, destEq, funNames, nsLookup, findVariant, Machine.preludeEnums,
+    builtinNames, List.findIdx?_cons, Expr.id, WFun]
 
 end C20
